@@ -232,6 +232,27 @@ theorem C15_perturb_points (ps qs : List P) (p q p' q' : P) (tol : Rat) :
   simp only [sim, pointsSimilar_eq_ptsNear, pointSimilar_eq_ptNear]
   refine ⟨fun h => ⟨h, h⟩, fun h => h, fun h1 h2 => by simp [h1, h2]⟩
 
+/-- **Polygon: rings reordered, restarted and perturbed.** If some reordering `rs''` of the
+argument's rings pairs every ring of the receiver with a ring that is within `tol` of it at some
+start vertex (`ringNear`, cf. `C15_perturb_ring`), and no ring has two candidates, `Similar` is true. -/
+theorem C15_perturb_polygon (rs rs' rs'' : List (List P)) (tol : Rat) (hperm : List.Perm rs'' rs')
+    (hrings : Spec.AllHold (Spec.ringPreds rs tol) rs'')
+    (hsep : Spec.sepRel (Spec.ringPreds rs tol) rs' = true) :
+    sim (.polygon rs) tol (.polygon rs') = true := by
+  simp only [sim]
+  rw [polygonSimilar_eq rs rs' tol hsep]
+  exact (existsMatching_iff _ _).2 ⟨rs'', hperm, hrings⟩
+
+/-- **Collection: members reordered, each similar to its partner** (recursively, by the
+specification), matching unambiguous at every level ⇒ `Similar` is true. -/
+theorem C15_perturb_collection (gs hs hs' : List RGeom) (tol : Rat) (hperm : List.Perm hs' hs)
+    (hmem : Spec.AllHold (Spec.specSimL gs tol) hs')
+    (hsep : Spec.separated (.collection gs) tol (.collection hs) = true) :
+    sim (.collection gs) tol (.collection hs) = true := by
+  apply C15_perturb _ _ _ hsep
+  simp only [Spec.specSim]
+  exact (existsMatching_iff _ _).2 ⟨hs', hperm, hmem⟩
+
 /-! ## "false when …" -/
 
 /-- index of the dynamic type -/
